@@ -83,7 +83,7 @@ def compare(rule, crate, sm, body, det, label=None, subst=None):
                 sites.setdefault(pv, w)
     # bound element variables ([*#k]) are compared modulo a renaming: try the bijections between the code's and the spec's numbers
     import itertools, re as _re
-    tag_re = _re.compile(r"\[\*#(\d+|\?)\]")
+    tag_re = _re.compile(r"\[\*<?#(\d+|\?)\]")
 
     def tags_of(fs):
         out = set()
@@ -97,7 +97,7 @@ def compare(rule, crate, sm, body, det, label=None, subst=None):
     if ctags and len(ctags) == len(stags) and len(ctags) <= 5:
         for perm in itertools.permutations(stags):
             mp = dict(zip(ctags, perm))
-            ren = {ps: B.rename(f, lambda a: tag_re.sub(lambda m: "[*#%s]" % mp.get(m.group(1), m.group(1)), a)) for ps, f in code.items()}
+            ren = {ps: B.rename(f, lambda a: tag_re.sub(lambda m: "[*%s#%s]" % ("<" if "<" in m.group(0) else "", mp.get(m.group(1), m.group(1))), a)) for ps, f in code.items()}
             score = 0
             for ps in ren:
                 if ps in spec_must:
